@@ -15,10 +15,12 @@ import (
 
 // SpecBuilder accumulates the syntax elements of one structure instance.
 type SpecBuilder struct {
-	c      *Checker
-	name   string
-	chunks []Chunk
-	st     *pathint.State
+	c       *Checker
+	name    string
+	chunks  []Chunk
+	st      *pathint.State
+	pending []int // indices of LengthOfRest chunks
+	ends    []int // index one past the last chunk each of them counts (-1: to the end)
 }
 
 // NewSpec starts a specification source.
@@ -38,6 +40,12 @@ func (b *SpecBuilder) Field(w int, sym string) *SpecBuilder {
 func (b *SpecBuilder) Flag(key string) *SpecBuilder {
 	b.chunks = append(b.chunks, Chunk{Kind: CBits, W: 1, Bits: bitdom.Vec{bitdom.AtomForm(pathint.PredAtom(key))}, What: "spec " + b.name + ": " + key})
 	return b
+}
+
+// FlagIs: one bit carrying the boolean field key, whose value is fixed to v in this instance.
+func (b *SpecBuilder) FlagIs(key string, v bool) *SpecBuilder {
+	b.st.Preds[key] = v
+	return b.Flag(key)
 }
 
 // Const: w bits with a fixed value (reserved bits, markers, computed lengths of empty loops).
@@ -60,6 +68,70 @@ func (b *SpecBuilder) Opaque(w int, sym string) *SpecBuilder {
 		f := lin.Sym(part)
 		b.chunks = append(b.chunks, Chunk{Kind: CBits, W: n, Bits: b.c.IP.SymVec(part, n), Lin: &f, What: "spec " + b.name + ": opaque " + sym})
 		w -= n
+	}
+	return b
+}
+
+// Slice: bits hi..lo of the integer field sym (a field split over several syntax elements, e.g. a 33-bit time
+// stamp written as 3 + 15 + 15 bits around marker bits).
+func (b *SpecBuilder) Slice(sym string, hi, lo int) *SpecBuilder {
+	v := make(bitdom.Vec, hi-lo+1)
+	for i := range v {
+		v[i] = bitdom.AtomForm(bitdom.Atom{Src: sym, Bit: lo + i})
+	}
+	b.chunks = append(b.chunks, Chunk{Kind: CBits, W: hi - lo + 1, Bits: v, What: fmt.Sprintf("spec %s: %s[%d..%d]", b.name, sym, hi, lo)})
+	return b
+}
+
+// Blob: the bytes of the byte-string field cell (their number is len(cell)).
+func (b *SpecBuilder) Blob(cell string) *SpecBuilder {
+	ln := "len(" + cell + ")"
+	b.c.IP.SetBounds(ln, 0, lin.PosInf)
+	b.chunks = append(b.chunks, Chunk{Kind: CBlob, Blob: cell, Len: lin.Sym(ln), What: "spec " + b.name + ": " + cell})
+	return b
+}
+
+// BlobN: the bytes of the byte-string field cell, which has exactly n bytes.
+func (b *SpecBuilder) BlobN(cell string, n int64) *SpecBuilder {
+	ln := "len(" + cell + ")"
+	b.c.IP.SetBounds(ln, 0, lin.PosInf)
+	b.chunks = append(b.chunks, Chunk{Kind: CBlob, Blob: cell, Len: lin.Const(n), What: "spec " + b.name + ": " + cell})
+	return b.Fix(ln, n)
+}
+
+// LenField: w bits carrying the number of bytes of the byte string cell.
+func (b *SpecBuilder) LenField(w int, cell string) *SpecBuilder {
+	ln := "len(" + cell + ")"
+	b.c.IP.SetBounds(ln, 0, lin.PosInf)
+	f := lin.Sym(ln)
+	b.chunks = append(b.chunks, Chunk{Kind: CBits, W: w, Bits: b.c.IP.SymVec(ln, 64).Resize(w), Lin: &f, What: "spec " + b.name + ": length of " + cell})
+	return b
+}
+
+// Stuffing: n bytes 0xFF, n being the integer symbol sym.
+func (b *SpecBuilder) Stuffing(sym string) *SpecBuilder {
+	b.c.IP.SetBounds(sym, 0, lin.PosInf)
+	one := lin.Const(0xff)
+	b.chunks = append(b.chunks, Chunk{Kind: CRepeat, Len: lin.Sym(sym), Body: []Chunk{{Kind: CBits, W: 8, Bits: bitdom.Const(8, 0xff), Lin: &one}}, What: "spec " + b.name + ": stuffing"})
+	return b
+}
+
+// LengthOfRest: w bits carrying the number of bytes that follow this element up to the end of the structure (or up
+// to the matching EndLength).
+func (b *SpecBuilder) LengthOfRest(w int) *SpecBuilder {
+	b.chunks = append(b.chunks, Chunk{Kind: CBits, W: w, What: "spec " + b.name + ": length of what follows"})
+	b.pending = append(b.pending, len(b.chunks)-1)
+	b.ends = append(b.ends, -1)
+	return b
+}
+
+// EndLength closes the innermost open LengthOfRest.
+func (b *SpecBuilder) EndLength() *SpecBuilder {
+	for i := len(b.ends) - 1; i >= 0; i-- {
+		if b.ends[i] < 0 {
+			b.ends[i] = len(b.chunks)
+			break
+		}
 	}
 	return b
 }
@@ -103,6 +175,30 @@ func Elem(cell string, k int) string {
 
 // Source finishes the builder.
 func (b *SpecBuilder) Source() *Source {
+	for k, idx := range b.pending {
+		end := b.ends[k]
+		if end < 0 {
+			end = len(b.chunks)
+		}
+		bits := lin.Const(0)
+		for _, ch := range b.chunks[idx+1 : end] {
+			if w, ok := ch.widthBits(); ok {
+				bits = bits.Add(w)
+			}
+		}
+		ln := scaleDown8(bits)
+		w := b.chunks[idx].W
+		b.chunks[idx].Lin = &ln
+		if ln.IsConst() {
+			b.chunks[idx].Bits = bitdom.Const(w, uint64(ln.C))
+		} else {
+			name := "val(" + ln.String() + ")"
+			b.c.IP.SetBounds(name, 0, (int64(1)<<uint(w))-1)
+			b.chunks[idx].Bits = b.c.IP.SymVec(name, w)
+			d := lin.Sym(name).Sub(ln)
+			b.st.Facts = append(b.st.Facts, lin.Fact{F: d}, lin.Fact{F: d.Scale(-1)})
+		}
+	}
 	s := &Source{Name: "spec " + b.name, St: b.st, Chunks: b.chunks}
 	s.place()
 	return s
